@@ -61,6 +61,7 @@ struct Plan {
     failw: HashMap<u64, PointFault>,
     crashw: Option<(u64, Option<u64>)>,
     crashr: Option<(u64, bool)>,
+    failr: HashMap<u64, i32>,
 }
 
 struct State {
@@ -168,6 +169,9 @@ fn load_plan(path: &str) -> Plan {
             }
             "crashw" if t.len() == 2 => plan.crashw = Some((num(1), None)),
             "crashw" if t.len() == 4 && t[2] == "after" => plan.crashw = Some((num(1), Some(num(3)))),
+            "failr" if t.len() == 3 => {
+                plan.failr.insert(num(1), num(2) as i32);
+            }
             "crashr" if t.len() == 2 => plan.crashr = Some((num(1), false)),
             "crashr" if t.len() == 3 && t[2] == "after" => plan.crashr = Some((num(1), true)),
             _ => bad_plan(line),
@@ -559,6 +563,8 @@ pub fn rename<P: AsRef<Path>, Q: AsRef<Path>>(from: P, to: Q) -> io::Result<()> 
         .unwrap_or(-1);
     let r = if let Some(f) = st.plan.fails.get(&seq).copied() {
         Err(err(f.errno))
+    } else if let Some(e) = st.plan.failr.get(&nth_rename).copied() {
+        Err(err(e))
     } else {
         std::fs::rename(from.as_ref(), to.as_ref())
     };
